@@ -120,6 +120,8 @@ class CollectFootnotes(Transform):
             and self.document.settings.myst_footnote_transition
             # avoid warning: Document or section may not begin with a transition
             and not all(isinstance(c, nodes.footnote) for c in self.document.children)
+            # avoid error: At least one body element must separate transitions
+            and not self._ends_with_transition()
         ):
             transition = nodes.transition(classes=["footnotes"])
             transition.source = self.document.source
@@ -137,6 +139,21 @@ class CollectFootnotes(Transform):
         for _, footnote in sorted(footnotes, key=_sort_key):
             footnote.parent.remove(footnote)
             self.document += footnote
+
+    def _ends_with_transition(self) -> bool:
+        """Whether the last element of the document (ignoring footnotes) is a transition,
+        also when it closes the last (sub-)section, from where docutils moves it up.
+        """
+        node: nodes.Element = self.document
+        while True:
+            children = [c for c in node.children if not isinstance(c, nodes.footnote)]
+            if not children:
+                return False
+            if isinstance(children[-1], nodes.transition):
+                return True
+            if not isinstance(children[-1], nodes.section):
+                return False
+            node = children[-1]
 
 
 class ResolveAnchorIds(Transform):
